@@ -610,6 +610,8 @@ class Tr(object):
             return "(opt_bind %s %s)" % (self.pure(recv, env), self.closure1(args[0], env))
         if name == "is_ascii_digit":
             return "(is_digit %s)" % self.pure(recv, env)
+        if name in ("is_ascii_lowercase", "is_ascii_uppercase", "is_ascii_alphabetic") and not args:
+            return "(%s %s)" % ({"is_ascii_lowercase": "is_lower", "is_ascii_uppercase": "is_upper", "is_ascii_alphabetic": "is_alpha"}[name], self.pure(recv, env))
         if name == "is_ascii" and not args:
             return "(N.ltb %s 128)" % self.pure(recv, env)
         if name == "to_ascii_lowercase" and not args:
